@@ -21,6 +21,7 @@
 import Flamego.Proofs.TreeMatch
 import Flamego.Proofs.TreeAdd
 import Flamego.Model.Router
+import Flamego.Proofs.ParsedOfWF
 
 namespace Flamego.C01
 
@@ -150,6 +151,42 @@ theorem rejected_registrations_invisible (E : Engine) (h : List (Route × Nat)) 
     cases hr : addRoute E t rh.1 rh.2 with
     | error e => simp only []; exact ih t
     | ok t' => simp only [buildFrom, hr]; exact ih t'
+
+/-! ### from route TEXTS: what `f.Get("/a/{x}", …)` registers
+
+A registration is a route text; texts outside the grammar are rejected by the parser (C06/C08) and
+contribute nothing. For the others the hypothesis `ParsedSeg` of the theorems above is a theorem
+(`parsedSeg_of_parse`), so dispatch is characterised for every history of texts, with no side
+condition at all. -/
+
+/-- the registrations whose text is inside the grammar, as `(route, id)` -/
+def parsedHistory (ts : List (Bytes × Nat)) : List (Route × Nat) :=
+  ts.filterMap fun (txt, hid) => (parse txt).map fun r => (r, hid)
+
+theorem parsedHistory_parsed (ts : List (Bytes × Nat)) :
+    ∀ rh ∈ parsedHistory ts, ∀ s ∈ rh.1.segs, ParsedSeg s = true := by
+  intro rh hrh
+  simp only [parsedHistory, List.mem_filterMap] at hrh
+  obtain ⟨⟨txt, hid⟩, _, hp⟩ := hrh
+  cases hparse : parse txt with
+  | none => simp [hparse] at hp
+  | some r =>
+    simp only [hparse, Option.map_some, Option.some.injEq] at hp
+    subst hp
+    exact parsedSeg_of_parse hparse
+
+/-- **dispatched iff admitted, for every history of route texts** -/
+theorem dispatch_iff_text (E : Engine) (hok : Nat → Bool) (ts : List (Bytes × Nat)) (path : Bytes) :
+    (chosen E hok (build E (parsedHistory ts)) path).isSome ↔
+      ∃ rh ∈ accepted E (parsedHistory ts), ∃ f ∈ formsOfRoute E rh.1 rh.2, f.Admits E hok (segsOf path) :=
+  dispatch_iff E hok (parsedHistory ts) (parsedHistory_parsed ts) path
+
+/-- the chosen route admits the path, for every history of route texts -/
+theorem dispatch_sound_text (E : Engine) (hok : Nat → Bool) (ts : List (Bytes × Nat)) (path : Bytes) (l : Leaf)
+    (hc : chosen E hok (build E (parsedHistory ts)) path = some l) :
+    ∃ rh ∈ accepted E (parsedHistory ts), ∃ f ∈ formsOfRoute E rh.1 rh.2,
+      f.hid = l.hid ∧ f.long = l.long ∧ f.Admits E hok (segsOf path) :=
+  dispatch_sound E hok (parsedHistory ts) (parsedHistory_parsed ts) path l hc
 
 /-! ### router level: the method selects the tree -/
 
